@@ -176,7 +176,14 @@ def binop(ip, op, a, b, st, node=None):
     name = '(%s %s %s)' % (a.desc(), _OPNAME.get(type(op), '?'), b.desc())
     if ia is not None and ib is not None:
         lo, hi = arith(op, ia, ib)
-        return mk_sym(st, name, lo, hi, (_OPNAME.get(type(op), '?'), [a, b]))
+        r = mk_sym(st, name, lo, hi, (_OPNAME.get(type(op), '?'), [a, b]))
+        if isinstance(op, (ast.Add, ast.Sub)):
+            if isinstance(a, Sym) and isinstance(b, Const) and isinstance(b.value, int):
+                st.lin[name] = (a.name, b.value if isinstance(op, ast.Add) else -b.value)
+            elif isinstance(b, Sym) and isinstance(a, Const) and isinstance(a.value, int) \
+                    and isinstance(op, ast.Add):
+                st.lin[name] = (b.name, a.value)
+        return r
     if isinstance(a, (Sym, Const)) or isinstance(b, (Sym, Const)):
         if (getattr(a, 'kind', None) in (None, 'int')) and (getattr(b, 'kind', None) in (None, 'int')):
             return mk_sym(st, name, -INF, INF, (_OPNAME.get(type(op), '?'), [a, b]))
@@ -263,6 +270,15 @@ def _refine(st, name, lo, hi, neq_add=None):
             h1 -= 1
             changed = True
     st.cons[name] = (l1, h1, n1)
+    if name in st.lin and l1 <= h1:
+        x, c = st.lin[name]
+        xl, xh, xn = st.interval(x)
+        nl, nh = max(xl, l1 - c), min(xh, h1 - c)
+        nn = xn | frozenset(v - c for v in n1 if isinstance(v, int))
+        if (nl, nh, nn) != (xl, xh, xn):
+            st.cons[x] = (nl, nh, nn)
+            if nl > nh:
+                return False
     return l1 <= h1
 
 
@@ -577,6 +593,19 @@ def _p_len(ip, args, kwargs, st, line, node):
     if isinstance(v, Obj) and not st.heap[v.oid].open and st.heap[v.oid].kind in ('list', 'dict'):
         return [('val', Const(len(st.heap[v.oid].items)), st)]
     name = 'len(%s)' % v.desc()
+    if isinstance(v, SliceV):
+        lo = v.lo.value if isinstance(v.lo, Const) else None
+        lo = 0 if (isinstance(v.lo, Const) and v.lo.value is None) else lo
+        if isinstance(lo, int) and lo >= 0 and isinstance(v.hi, Sym):
+            hl, hh, _ = st.interval(v.hi.name)
+            inb = st.atoms.get('len(%s) < %s' % (v.base.desc(), v.hi.name)) is False or \
+                st.atoms.get('len(%s) >= %s' % (v.base.desc(), v.hi.name)) is True
+            if inb and hl >= lo:
+                return [('val', binop(ip, ast.Sub(), v.hi, Const(lo), st), st)]
+            return [('val', mk_sym(st, name, 0, max(0, hh - lo), ('len', [v])), st)]
+        if isinstance(lo, int) and lo >= 0 and isinstance(v.hi, Const) and isinstance(v.hi.value, int) \
+                and v.hi.value >= 0:
+            return [('val', mk_sym(st, name, 0, max(0, v.hi.value - lo), ('len', [v])), st)]
     return [('val', mk_sym(st, name, 0, INF, ('len', [v])), st)]
 
 
@@ -587,8 +616,10 @@ def _p_struct_unpack(ip, args, kwargs, st, line, node):
             st.counter += 1
             base = 'unpack%d@%s' % (st.counter, line)
             items = []
+            fq = getattr(st.cur_func(), 'qualname', None)
             for i, (code, n) in enumerate(fl):
                 nm = '%s.%d' % (base, i)
+                st.syminfo[nm] = (args[0].value, i, fq, line)
                 if code in UNSIGNED:
                     items.append(mk_sym(st, nm, UNSIGNED[code][0], UNSIGNED[code][1],
                                         ('unpack', [args[0], args[1], Const(i)])))
@@ -597,8 +628,6 @@ def _p_struct_unpack(ip, args, kwargs, st, line, node):
                                         ('unpack', [args[0], args[1], Const(i)])))
                 else:
                     items.append(Opaque(nm, 'bytes'))
-            st.actions.append(Action('call', 'struct', 'unpack', args, None, line,
-                                     getattr(st.cur_func(), 'qualname', None)))
             return [('val', TupleV(items), st)]
     return [('val', Opaque('struct.unpack(%s)' % ', '.join(a.desc() for a in args)), st)]
 
